@@ -32,8 +32,12 @@ class Timeout(BaseException):   # not an Exception: handlers of the implementati
     pass
 
 
+ARMED = [False]
+
+
 def _alarm(signum, frame):
-    raise Timeout()
+    if ARMED[0]:
+        raise Timeout()
 
 
 def ring(n, k):
@@ -89,10 +93,41 @@ def catalogue(kind, n, split):
         for k in range(n):
             put("i%d.f90" % k, "integer :: vi%d\ninclude 'i%d.f90'\n" % (k, ring(n, k)))
         put("main_i.f90", "program pi\n include 'i0.f90'\n vi0 = 1\nend program pi\n")
+    # ---- a tail that enters the cycle from outside (lasso), and link cycles laid over USE / ancestry cycles
+    elif kind == "submodule_tail":
+        for k in range(n):
+            put("s%d.f90" % k, "submodule (sm%d) sm%d\n integer :: vs%d\ncontains\n subroutine ss%d()\n  vs%d = 1\n end subroutine ss%d\nend submodule sm%d\n" % (
+                ring(n, k), k, k, k, k, k, k))
+        put("tail.f90", "submodule (sm0) smt\n integer :: vt\ncontains\n subroutine st()\n  vt = vs0\n end subroutine st\nend submodule smt\n")
+    elif kind == "extends_tail":
+        body = "module me\n implicit none\n"
+        for k in range(n):
+            body += " type, extends(te%d) :: te%d\n  integer :: ce%d\n contains\n  procedure :: fe => fe%d\n end type te%d\n" % (ring(n, k), k, k, k, k)
+        body += " type, extends(te0) :: tt\n  integer :: ct\n contains\n  procedure :: fe => ft\n end type tt\ncontains\n"
+        for k in range(n):
+            body += " subroutine fe%d(self)\n  class(te%d) :: self\n end subroutine fe%d\n" % (k, k, k)
+        body += " subroutine ft(self)\n  class(tt) :: self\n  call self%fe()\n end subroutine ft\nend module me\n"
+        put("e.f90", body)
+    elif kind == "pointer_tail":
+        decl = "".join(" integer, pointer :: pp%d => pp%d\n" % (k, ring(n, k)) for k in range(n))
+        put("p.f90", "program ppg\n implicit none\n%s integer, pointer :: pt => pp0\n pt = 1\n print *, pt\nend program ppg\n" % decl)
+    elif kind == "pointer_x_use":
+        for k in range(n):
+            put("x%d.f90" % k, "module mx%d\n use mx%d\n integer, pointer :: px%d => px%d\ncontains\n subroutine sx%d()\n  px%d = 1\n end subroutine sx%d\nend module mx%d\n" % (
+                k, ring(n, k), k, ring(n, k), k, k, k, k))
+    elif kind == "procptr_x_use":
+        for k in range(n):
+            put("y%d.f90" % k, "module my%d\n use my%d\n procedure(qy%d), pointer :: qy%d => qy%d\ncontains\n subroutine sy%d()\n  call qy%d()\n end subroutine sy%d\nend module my%d\n" % (
+                k, ring(n, k), ring(n, k), k, ring(n, k), k, k, k, k))
+    elif kind == "pointer_x_submodule":
+        for k in range(n):
+            put("z%d.f90" % k, "submodule (sz%d) sz%d\n integer, pointer :: pz%d => pz%d\ncontains\n subroutine tz%d()\n  pz%d = 1\n end subroutine tz%d\nend submodule sz%d\n" % (
+                ring(n, k), k, k, ring(n, k), k, k, k, k))
     return files
 
 
-KINDS = ["use", "extends", "submodule", "pointer", "procptr", "associate", "binding", "include"]
+KINDS = ["use", "extends", "submodule", "pointer", "procptr", "associate", "binding", "include",
+         "submodule_tail", "extends_tail", "pointer_tail", "pointer_x_use", "procptr_x_use", "pointer_x_submodule"]
 
 
 def identifiers(text):
@@ -114,7 +149,8 @@ def run_workspace(ctx, kind, n, split, coq_exprs, coq_meta):
         bad = []
         nreq = 0
         try:
-            signal.alarm(60)
+            ARMED[0] = True
+            signal.setitimer(signal.ITIMER_REAL, 60, 0.25)   # repeating: bare excepts may swallow one delivery
             srv, conn = impl.make_server(root, extra=["--nthreads", "1"])
             init_msgs = [o for o in conn.take() if o[0] == "e"]
             if init_msgs:
@@ -142,9 +178,11 @@ def run_workspace(ctx, kind, n, split, coq_exprs, coq_meta):
                             bad.append((m, name, (li, ch), (r[3] if r and r[0] == "e" else "no answer" if r is None else "slow %.1fs" % dt)))
             correspondence(srv, coq_exprs, coq_meta, (kind, n, split))
         except Timeout:
-            bad.append(("timeout", None, None, "workspace took more than 60 s"))
+            ARMED[0] = False
+            bad.append(("timeout", None, None, "workspace took more than 60 s (endless loop / unbounded recursion)"))
         finally:
-            signal.alarm(0)
+            ARMED[0] = False
+            signal.setitimer(signal.ITIMER_REAL, 0)
             signal.signal(signal.SIGALRM, old)
         ctx.count((kind, n, split), True, sample={"kind": kind, "length": n, "split": split, "files": {k: v[:200] for k, v in list(files.items())[:2]}})
         ctx.extra["requests"] = ctx.extra.get("requests", 0) + nreq
